@@ -443,7 +443,7 @@ impl<TStorage: ?Sized + ReadableStorageTraits + 'static> ArrayShardedReadableExt
         inner_chunk_indices: &[u64],
         options: &CodecOptions,
     ) -> Result<ndarray::ArrayD<T>, ArrayError> {
-        if let Some(inner_chunk_shape) = self.inner_chunk_shape() {
+        if let Some(inner_chunk_shape) = self.effective_inner_chunk_shape() {
             super::elements_to_ndarray(
                 &inner_chunk_shape.to_array_shape(),
                 self.retrieve_inner_chunk_elements_opt::<T>(cache, inner_chunk_indices, options)?,
